@@ -369,14 +369,18 @@ class C03(Check):
         gen = gens["int"]
         dense0 = None
 
-        for vals in ("int", "gauss"):
-            factors = [gens[vals]((s, rk), off + 17 * i) for i, s in enumerate(shape)]
+        for vals in ("int", "gauss") + (("real-first-complex-rest", "complex-last-only") if n >= 2 else ()):
+            if vals in gens:
+                factors = [gens[vals]((s, rk), off + 17 * i) for i, s in enumerate(shape)]
+            else:  # factors of different kinds in one decomposition (the context of the result must not be taken from one operand)
+                cplx = (lambda i: i > 0) if vals == "real-first-complex-rest" else (lambda i: i == n - 1)
+                factors = [gens["gauss" if cplx(i) else "int"]((s, rk), off + 17 * i) for i, s in enumerate(shape)]
             dense = R.cp_dense(rw, [R.RT.from_np(f) for f in factors])
             dense0 = dense0 or dense
             sq = R.sqnorm(dense)
             masks = [(name, m, R.build(shape, lambda idx, m=m: dense[idx] * m[idx].item())) for name, m in _masks(shape, off)]
             k.inputs = f"weights={_fmt(w)} factors={_fmt(factors)}"
-            sfx = ",complex" if vals == "gauss" else ""
+            sfx = ",complex" if vals == "gauss" else ("" if vals == "int" else "," + vals)
             cls = (base + sfx, base)
             for b in self._each_backend(tenalg, k, "cp"):
                 for form in ("tuple", "CPTensor"):
